@@ -214,8 +214,7 @@ Lemma nth_error_upd {A} (f : A -> A) l : forall i j,
   nth_error (upd i f l) j = if Nat.eqb i j then option_map f (nth_error l j) else nth_error l j.
 Proof.
   induction l as [|x tl IH]; intros [|i] [|j]; cbn [upd nth_error Nat.eqb option_map]; try reflexivity.
-  - destruct (Nat.eqb 0 (S j)); reflexivity.
-  - destruct j; reflexivity.
+  - destruct (Nat.eqb i j); reflexivity.
   - apply IH.
 Qed.
 
@@ -225,7 +224,7 @@ Proof.
   assert (Hq : h / 2 ^ 32 < 2 ^ 32).
   { apply N.div_lt_upper_bound; [discriminate|]. change (2 ^ 32 * 2 ^ 32) with two64. exact Hh. }
   apply N.div_lt_upper_bound; [discriminate|].
-  eapply N.le_lt_trans; [apply N.le_min_l|]. rewrite (N.mul_comm (2 ^ 32)). apply N.mul_lt_mono_pos_r; assumption.
+  eapply N.le_lt_trans; [apply N.le_min_l|]. nia.
 Qed.
 
 Definition sbbf_wf (f : sbbf) : Prop := Forall block_wf f /\ (0 < length f)%nat.
@@ -275,7 +274,7 @@ Proof. destruct l as [|a [|b tl]]; cbn [windows3]; try contradiction. intro H. r
 Lemma windows3_app_r s q w : In w (windows3 s) -> In w (windows3 (s ++ q)).
 Proof.
   revert w. induction s as [|a tl IH]; intros w; [intros []|].
-  destruct tl as [|b [|c t2]]; try (intros []).
+  destruct tl as [|b [|c t2]]; try solve [intros []].
   cbn [windows3 app]. intros [<-|H]; [left; reflexivity|]. right. exact (IH w H).
 Qed.
 Lemma windows3_app_l p s w : In w (windows3 s) -> In w (windows3 (p ++ s)).
